@@ -366,7 +366,7 @@ def class_rows_lean(kept, rows, chunk=96):
     """kept: [(form, roles)], rows: {name: [id, enc, mainOp hex, altOp hex, iflags hex, aflags hex]} -> Lean source"""
     out = ["/- GENERATED by tools/gen_c01.py from db/isa_x86.json and the compiled instruction tables (harness `row`). -/",
            "import AsmjitVerif.Spec.X86Decode", "set_option maxRecDepth 100000", "namespace AsmjitVerif.Gen.X86ClassRows", "open Spec.X86", "",
-           "structure Entry where", "  name : String", "  enc : Nat", "  mainOp : BitVec 32", "  iflags : BitVec 32", "  rule : Rule", "  kinds : List RegKind", ""]
+           "structure Entry where", "  name : String", "  enc : Nat", "  mainOp : BitVec 32", "  iflags : BitVec 32", "  aflags : BitVec 32 := 0#32", "  rule : Rule", "  kinds : List RegKind", ""]
     counts = {}
     for shape, encs in VEX_REG_CLASSES.items():
         entries = []
@@ -402,8 +402,8 @@ def class_rows_lean(kept, rows, chunk=96):
             if not okf:
                 continue
             line, _ = translate(f)
-            entries.append('  { name := "%s", enc := %d, mainOp := 0x%s#32, iflags := 0x%s#32, kinds := [%s],\n    rule := %s }' % (
-                f["name"], int(r[1]), r[2], r[4], ", ".join(KIND_LEAN[k] for k in kinds), rule_lean(line)))
+            entries.append('  { name := "%s", enc := %d, mainOp := 0x%s#32, iflags := 0x%s#32, aflags := 0x%s#32, kinds := [%s],\n    rule := %s }' % (
+                f["name"], int(r[1]), r[2], r[4], r[5], ", ".join(KIND_LEAN[k] for k in kinds), rule_lean(line)))
         counts[shape] = len(entries)
         nch = 0
         for i in range(0, len(entries), chunk):
